@@ -28,6 +28,10 @@ CHECKS = {
          "TLA+ acceptor GroupLine.tla (block automaton) model-checked with TLC; replay of all states; trace validation", "6 (C19)"),
  "C02": (MC, "RespellStutters (every other spelling of an attached occurrence - other name, `=`, glued, detached - gives the same outcome) is an invariant checked by TLC in every state; the alphabet contains all five spellings x hostile byte values x name kinds, clusters of 2..3; all states replayed and values compared byte-exactly (bytes travel percent-encoded through TLC).",
          "TLA+ invariant RespellStutters model-checked with TLC; replay of all states with byte-exact values; trace validation", "6 (C02)"),
+ "C11": ("exploration", "Process.tla states what a process around OptionParser::run() may do (spawn with a prediction, one output on the predicted stream with the predicted text, body only on success, exit 0/1); TLC checks StreamsAndStatus on the protocol; a seeded sample of the specification's cases is executed as a real process (argv through execve, four argv[0] shapes) and every run's event sequence is validated by TLC (ProcessTrace), the prediction's class being bound to what CmdLine.tla demands.",
+         "TLA+ process protocol (Process.tla) model-checked; trace validation of real process runs with TLC", "6 (C11)"),
+ "C20": ("translation_validation", "The specification has no feature parameter: the same specification-generated cases (CmdLine and GroupLine replay sets) are run by six builds of the harness ({}, autocomplete, autocomplete+docgen+batteries+derive, dull-color, bright-color, default) and class, value and monochrome text must be identical across builds and conform to the specification.",
+         "differential execution of TLC-generated cases across six feature builds, each checked against the TLA+ outcome", "6 (C20)"),
 }
 NOTE = "Bounded: exhaustive within the stated constants, sampled beyond; trusted: TLC, the JSON reader, the dynamic builder (public bpaf API only)."
 
@@ -40,8 +44,10 @@ def main():
                    "baseline_off_cmd": "cd /repo && cargo nextest run --workspace --no-fail-fast --test-threads 8 --offline",
                    "source_commits": hook_commits, "add_only": True},
          "engines": [
-             {"name": "cmdline", "path": "tla/CmdLine.tla", "serves_properties": sorted(set(CHECKS) - {"C07", "C19"}),
+             {"name": "cmdline", "path": "tla/CmdLine.tla", "serves_properties": sorted(set(CHECKS) - {"C07", "C19", "C11"}),
               "kind_free_text": "TLA+ left-to-right acceptor with denotation; TLC design/replay/trace configurations; Rust harness building real bpaf parsers from the same JSON definitions"},
+             {"name": "process", "path": "tla/Process.tla", "serves_properties": ["C11"],
+              "kind_free_text": "TLA+ protocol of a process built around OptionParser::run(); ProcessTrace validates recorded runs of harness-app"},
              {"name": "groupline", "path": "tla/GroupLine.tla", "serves_properties": ["C07", "C19"],
               "kind_free_text": "TLA+ acceptor for one level with choices and adjacent groups (extends CmdLine); TLC replay/trace configurations"}],
          "checks": [], "not_applicable": [],
@@ -54,7 +60,7 @@ def main():
                                 "thorough_cmd": f"bin/check {pid} --tier thorough",
                                 "evidence_file": f"/verif/evidence/{pid}.json",
                                 "replay_cmd_template": f"bin/check {pid} --replay {{path}}",
-                                "engine": "groupline" if pid in ("C07", "C19") else "cmdline",
+                                "engine": "groupline" if pid in ("C07", "C19") else "process" if pid == "C11" else "cmdline",
                                 "level_claimed": {"category": lvl, "text": text, "design_ref": f"DESIGN.md section {ref}"},
                                 "level_note": NOTE, "technique": tech})
         else:
